@@ -8,8 +8,9 @@ LEVEL_TEXT = ("Lean theorems over the controller x executors system extended by 
               "c03_sched_no_crash), shutdown is issued exactly once and last, nothing is computable/ongoing/unfetched when the loop exits, an ongoing task is "
               "really queued or has run. Under FIFO delivery (known finding C03-last-output-overtakes for any order, hence `_partial`): all tasks are completed "
               "when the loop exits (c03_done_partial), an iteration entered with something computable and nothing ongoing dispatches a task before assign() "
-              "returns on every feasible cluster (c03_progress_partial), and the loop makes at most roundBound(job) iterations (c03_bounded_partial). "
-              "'No wait with nothing outstanding' for pending fetches is decided per run by the oracle, under both adversaries.")
+              "returns on every feasible cluster (c03_progress_partial), the loop makes at most roundBound(job) iterations (c03_bounded_partial), and whenever "
+              "the controller blocks in recv_events an event is pending or an executor step is enabled (c03_no_idle_wait_partial; for any order while a task "
+              "is ongoing: c03_ongoing_is_live). FIFO = per-producer order (fifoStep). The same clauses are decided per run by the watchdog oracle, under both adversaries.")
 LEVEL_NOTE = ("modelled, not verified: scheduler/api.py initialize/plan, scheduler/assign.py build_assignment + the pops of _assignment_heuristic, controller/act.py act/flush_queues, controller/notify.py notify/consider_*, impl.run loop skeleton (Model/Ctrl.lean, one Lean function per Python function). Abstracted as an oracle argument validated for admissibility by the model and supplied from what the real run chose: which (idle worker, computable task) pairs the distance/overhead heuristics and host->component migration pick per round, and which `available` host is the transmit source; theorems quantify over all admissible choices. Executors are abstract (Env; SimBridge mirrors it): a dispatched task runs once its inputs are on its host and publishes outputs in index order; transmit/fetch read the source store; purge is immediate. Hypothesis WF: tasks topologically numbered, inputs duplicate-free, >=1 output per task, requested outputs exist, worker ids distinct (the generator guarantees it). The distance/overhead dictionaries of the heuristics (KeyError sites inside _assignment_heuristic/migrate) are outside the model: their crash-freedom is covered only by the exception-capturing oracle on every run.")
 TECHNIQUE = "Lean 4 inductive system invariant (crash-freedom, shutdown discipline) over a small-step transition system + differential correspondence with the real controller under adversarial schedules (watchdog oracles for liveness)"
 LEAN_PROPS = ["EkwVerif.Props.C03"]
